@@ -124,10 +124,17 @@ def spline_part(rep, rng, quick):
         X = np.round((np.sin(5 * t)[None, :] + rng.normal(size=(n, len(t))) * 0.2) * 256) / 256 + 1.0
         d = fd.dense(t, X)
         kw = dict(n_segments=nseg, degree=deg)
+        if i % 3 == 1:
+            kw["order_penalty"] = 1          # "the same settings" includes every smoothing keyword that is forwarded
+        elif i % 3 == 2:
+            kw["order_penalty"] = 3
+            kw["n_segments"] = max(nseg, 3)
         with warnings.catch_warnings():
             warnings.simplefilter("ignore")
             a = np.asarray(d.to_basis(penalty=2.0, **kw).to_grid().values, float)
             b = np.asarray(d.smooth(method="PS", penalty=2.0, **kw).values, float)
+        nseg = kw["n_segments"]
+        kw = dict(n_segments=nseg, degree=deg)
         rep.case(("to_basis", X.tobytes(), nseg, deg), kind="to_basis=PS-smoothing",
                  sample={"part": "to_basis", "n_segments": nseg, "degree": deg, "n_points": len(t)})
         info = {"t": C.hexf(t), "X": C.hexf(X), "n_segments": nseg, "degree": deg}
